@@ -23,22 +23,12 @@ COMMON_NOTE = (
 
 PROPS = {
     "C01": dict(
-        text="Bounded model checking of kernels: panic-freedom (unwrap/expect, slice indexing, assert!, arithmetic overflow, "
-             "unreachable!) of the real float->integer conversions (all 2^64 doubles), the UTF-8 decoder (all 4-byte windows), the "
-             "operator scanner, the span manager, the slice-range arithmetic and the numeric step functions, each for ALL inputs "
-             "inside its bound; in the thorough tier every harness of every property serves C01 (each decides panic-freedom of the "
-             "code it calls). This is the level the technique can reach: the property's full quantifier (all programs through the "
-             "whole pipeline, the process exit status, the native stack) is not encodable and is not claimed.",
-        note="Out: whole-pipeline runs on arbitrary programs, the inline arms of Evaluator::run, everything behind f64 % f64 "
-             "(fmod is not decidable by CBMC here), the YAML parser, native stack depth, the CLI's exit status, panics raised "
-             "inside core::fmt (stubbed).",
+        text="Bounded model checking of kernels: panic-freedom (unwrap/expect, slice indexing, assert!, arithmetic overflow, unreachable!) of the real float->integer conversions (all 2^64 doubles), the UTF-8 decoder (all 4-byte windows), the operator scanner, the span manager, the slice-range arithmetic, the numeric step functions and one iteration of the evaluator loop on the frame bookkeeping states, each for ALL inputs inside its bound; in the thorough tier every harness of every property serves C01 (each decides panic-freedom of the code it calls). This is the level the technique can reach: the property's full quantifier (all programs through the whole pipeline, the process exit status, the native stack) is not encodable and is not claimed.",
+        note="Out: whole-pipeline runs on arbitrary programs, everything behind f64 % f64 (fmod is not decidable by CBMC here), the YAML parser, native stack depth, the CLI's exit status, panics raised inside core::fmt (stubbed). A crash outside these kernels (std.map with a defaulted parameter, F9) was found by a sub-agent, not by a check, and repaired.",
         ref="DESIGN.md section 6 C01, section 11"),
     "C02": dict(
-        text="Bounded model checking of the arithmetic kernels of the core language at their Rust entry point: + - * / (IEEE "
-             "result or error, division by +-0), & | ^ << >> against the specification written out in the harness (safe-integer "
-             "range, shift count modulo 64, negative counts, lost bits), and the slice-range arithmetic, for all finite doubles.",
-        note="Out: everything that needs the interpreter loop (locals, closures, comprehensions, self/super/$ resolution, object "
-             "locals, asserts, error), parameter binding, the % operator (fmod), comparison operators (inline in Evaluator::run).",
+        text='Bounded model checking of the core language at the level of single evaluator steps on the real code: the arithmetic / bitwise / shift operators against the specification written out in the harness (all finite doubles); one iteration of the real Evaluator::run on if, && / || (short circuit), unary operators, array indexing, assert and the comprehension bookkeeping (binding order of nested generators, filters); one call of the real do_expr per expression kind (evaluation order, which operands are scheduled and which are kept unevaluated, variable lookup finds the innermost binding); the real parameter binder on positional / named / defaulted arguments with symbolic names; slice-range arithmetic.',
+        note='Out: whole programs (the composition of steps is the interpreter loop itself, argued by induction over the state stack, not discharged); objects with inheritance beyond the layer lemmas of C07; the % operator (fmod); string formatting; closures / letrec / delayed calls are thorough-tier harnesses (3-15 M SAT variables each).',
         ref="DESIGN.md section 6 C02, section 11"),
     "C03": dict(
         text="Bounded model checking of trace completeness: the real GcTrace implementations of every heap data type "
@@ -50,10 +40,8 @@ PROPS = {
              "schedule independence of whole evaluations (interpreter loop).",
         ref="DESIGN.md section 6 C03, section 11"),
     "C04": dict(
-        text="Bounded model checking of the thunk protocol that implements call-by-need: the ThunkData state machine (a pending "
-             "payload is handed out exactly once, Done is absorbing) and the creation site used by every binding position "
-             "(new_pending_expr_thunk evaluates nothing but literals, and never turns a non-finite literal into a value).",
-        note="Out: that unused bindings of arbitrary programs are never forced, and the rewrite laws (interpreter loop).",
+        text='Bounded model checking of the mechanisms that implement call-by-need, on the real code: the ThunkData state machine for every kind of delayed computation (a pending payload is handed out exactly once, Done is absorbing), the DoThunk / GotThunk arms of the real Evaluator::run (a done thunk is reused, a pending one is marked in progress and memoised), the creation site used by every binding position (new_pending_expr_thunk evaluates nothing but literals), and the laziness of the control constructs: if schedules one branch, && / || do not schedule the right operand when the left decides, a true assert does not evaluate its message, indexing forces only the selected element, call arguments are not scheduled.',
+        note='Out: that unused bindings of arbitrary programs are never forced, and the rewrite laws over whole programs (interpreter loop); std.trace output.',
         ref="DESIGN.md section 6 C04, section 11"),
     "C05": dict(
         text="Bounded model checking of the JSON string escaper shared by JSON/Python/TOML/YAML output over every Unicode scalar "
@@ -140,10 +128,8 @@ PROPS = {
              "discharged by the solver; arrays longer than the bounds inside a single step; key functions other than the identity.",
         ref="DESIGN.md section 6 C17, section 11"),
     "C18": dict(
-        text="Bounded model checking of code-point semantics where it was reachable: string slices with negative bounds, std.length, "
-             "std.char / std.codepoint as mutual inverses over all scalar values, the radix parser reporting the offending "
-             "character, std.format field widths counted in characters - all on strings of arbitrary characters of every UTF-8 width.",
-        note="Out: substr/findSubstr/strip/split/join/replace identities, strings longer than 2 characters.",
+        text="Bounded model checking of code-point semantics where it was reachable in the quick tier: slice-range arithmetic against the character count's contract, the radix parser reporting the offending character (not byte), and the order of strings (byte order of UTF-8 equals code-point order, two arbitrary characters per string).",
+        note='Out: everything that builds strings under the solver (substr / findSubstr / strip / split / join identities, std.length, s[i], slices of symbolic strings, format widths): those harnesses exist but were not decided within 25 min once the unsound String::reserve stub of the first session was replaced; they are thorough-tier attempts.',
         ref="DESIGN.md section 6 C18, section 11"),
     "C19": dict(
         text="Bounded model checking of std.format's field padding (width counted in characters, justification) at both call "
@@ -152,10 +138,8 @@ PROPS = {
              "core::fmt (the formatter is stubbed).",
         ref="DESIGN.md section 6 C19, section 11"),
     "C20": dict(
-        text="Bounded model checking of the radix parser (value, first offending character) and of the JSON lexer (number "
-             "grammar and string tokens: accept set, decoded value and consumed length against RFC 8259 references).",
-        note="Out: MD5/SHA digests, std.parseYaml (third-party parser), the value of str::parse::<f64> (trusted), parse_json "
-             "document structure, base64.",
+        text="Bounded model checking of the radix parser (value, first offending character), of the JSON number lexer (RFC 8259 grammar on every 4-byte ASCII input, finiteness) and of the base64 decoder's accept set.",
+        note='Out: MD5/SHA digests, std.parseYaml (third-party parser), the value of str::parse::<f64> (trusted), JSON string tokens and base64 round trips (harnesses exist, not decided within 25 min: thorough-tier attempts), parse_json document structure.',
         ref="DESIGN.md section 6 C20, section 11"),
 }
 
@@ -163,6 +147,7 @@ PROPS = {
 READY = {"C04", "C16", "C14", "C05", "C17", "C08", "C10"}
 
 NA_REASONS = {
+    "C19": "No harness of std.format is decided by CBMC: the rendering code builds strings whose length depends on symbolic widths / precisions, String::push of the pinned toolchain needs a model of String::reserve, and with a sound (bounded-growth) model the field-padding and sign / zero-padding harnesses were not decided within 25 min (the first session's verdict-free attempts used an unsound no-op stub). Digits come from core::fmt and fmod, which are out of reach anyway. The harnesses stay as thorough-tier attempts; the two defects found by reading (F5, F6) stay repaired.",
     "C11": "Order-independence is a statement about sequences of whole evaluations (load/eval/gc/eval) sharing memoised thunks, the interner and the import cache; it needs the interpreter loop and Program::new (lexing/parsing/analysing the 2k-line stdlib) inside the encoding, and the GOTO program for a single Evaluator::run already exceeds 22 GB in goto-instrument. No kernel smaller than a whole evaluation carries this property.",
     "C12": "The contract is about a process: exit status, stdout/stderr, -o/-m files, closed or full stdout, environment variables. CBMC/Kani have no model of the OS and reject the FFI calls; main_inner is I/O from its first statement.",
     "C13": "Import resolution is Path::exists, canonicalize, fs::read over directory trees and symlinks - file-system state that cannot be made a symbolic variable here without replacing the very calls whose behaviour is the property.",
